@@ -27,7 +27,7 @@ def _ctc(draw, nms, feats):
 
 PROFILE = S.Profile(S.clafer_names(), single=("mandatory", "optional"), group=("alternative", "or", "mutex", "card", "card", "star"),
                     layout="one_group", abstract=False, attrs=S._clafer_attrs, ctc_max=4, ctc_expr=_ctc, variants=S.VARIANTS_TEXT,
-                    sanitize=S.clafer_sanitize)
+                    sanitize=S.clafer_sanitize, simple_ops=logic.LOGICAL)
 
 
 def _unify_attr_types(model):
@@ -85,8 +85,13 @@ def check(case):
         node = byname[f["name"]]
         if sorted(a[1:-1] if a.startswith('"') else a for a, _ in node.attrs) != sorted(a["name"] for a in f["attrs"]):
             out.append(("C11.attribute-assignments", f"{f['name']!r}"))
-        if f["attrs"] and node.super_ != "AttributedFeature":
+        if f["attrs"] and (doc["attr_block"] is None or node.super_ != doc["attr_block"]):
             out.append(("C11.attributed-feature-without-supertype", f"{f['name']!r}"))
+    top_names = {f.name for f in feats}
+    if doc["attr_block"] is not None and (doc["attr_block"][1:-1] if doc["attr_block"].startswith('"') else doc["attr_block"]) in top_names:
+        out.append(("C11.helper-clafer-named-like-a-feature", f"{doc['attr_block']!r}"))
+    if doc["instance"] is not None and (doc["instance"][0][1:-1] if doc["instance"][0].startswith('"') else doc["instance"][0]) in top_names:
+        out.append(("C11.instance-named-like-a-feature", f"{doc['instance'][0]!r}"))
     if doc["instance"] is None or doc["instance"][1] != doc["root"].spelling:
         out.append(("C11.instance-line", f"{doc['instance']!r} vs root {doc['root'].spelling!r}"))
     if undeclared:
@@ -140,6 +145,8 @@ def classes(case):
 
 
 SUBS = [
+    Sub("constraint-shapes", check, enum=_bool.enum_constraint_shapes, nontrivial=nontrivial, classes=classes,
+        exhaustive=False),
     Sub("export", check, gen=lambda tier: S.model_specs(PROFILE, 1, 9).map(_unify_attr_types), nontrivial=nontrivial,
         classes=classes, n={"quick": 800, "thorough": 6000},
         essential=["rel:mutex", "rel:cardinal", "attrs", "attr-name-needs-quotes", "name-needs-quotes", "operator-word-name",
